@@ -174,3 +174,62 @@ func c14OwnServeContext(r *Run) {
 	close(s2c)
 	settleGoroutines(0)
 }
+
+// c14CancelWithUndeliveredMessage: a server-streaming / bidi call whose caller has NOT taken the
+// messages the server sent (the client stream holds one for it) when it cancels. The server is told
+// (reset), its handler — which lives as long as its context — ends, and the server connection holds no
+// registered stream for the call afterwards.
+func c14CancelWithUndeliveredMessage(r *Run) {
+	if !r.Want("undelivered") {
+		return
+	}
+	for rep, reps := 0, r.Scale(4, 40); rep < reps && r.NumViolations() <= 4; rep++ {
+		for _, method := range []string{mSrvStream, mBidi} {
+			in := map[string]any{"method": method, "rep": rep, "caller": "has received headers, takes no message, cancels"}
+			r.Progress("undelivered", in)
+			rig := NewRig(RigOpt{Serialise: rep%2 == 0})
+			hdone := make(chan struct{})
+			rig.Impl.SetStream(func(m string, ss grpc.ServerStream) error {
+				defer close(hdone)
+				if m == mSrvStream {
+					recvB(ss)
+				}
+				for i := 0; i < 3; i++ {
+					if sendB(ss, srvMsg(i)) != nil {
+						break
+					}
+				}
+				<-ss.Context().Done()
+				return ss.Context().Err()
+			})
+			ctx, cancel := context.WithCancel(context.Background())
+			cs, err := rig.CC.NewStream(ctx, descOf(method), method)
+			if err != nil {
+				cancel()
+				rig.Close()
+				r.Violate("undelivered.open", "history", "stream could not be opened", in, err.Error(), nil)
+				return
+			}
+			sendB(cs, []byte("req"))
+			if method == mSrvStream {
+				cs.CloseSend()
+			}
+			cs.Header() // the first response envelope has reached the client stream
+			time.Sleep(3 * time.Millisecond)
+			cancel()
+			r.Eval(fmt.Sprintf("undelivered/%s/%d", method, rep), true)
+			r.Count("c14.undelivered")
+			ok := true
+			select {
+			case <-hdone:
+			case <-time.After(c11ProbeDeadline):
+				r.Violate("undelivered.handler", "history", "the caller cancelled (with a message it had not taken), but the server's handler is still running: the server holds the stream's registration, goroutine and context", in, goroutineDump(), "handler ended")
+				ok = false
+			}
+			rig.Close()
+			if !ok {
+				return
+			}
+		}
+	}
+}
